@@ -419,6 +419,7 @@ PROPS = {
                         "at most 16 watcher processes at a time (inotify instance limit 128 per user)"],
         "parts": [
             {"name": "select", "test": "TestSelect", "checks": {Q: 1600, T: 32000}, "shards": {Q: 8, T: 16}, "timeout": {Q: 500, T: 3000}, "shrinktime": "40s"},
+            {"name": "pairs", "test": "TestEventPairs", "kind": "plain", "shards": {Q: 12, T: 12}, "timeout": {Q: 600, T: 900}},
             {"name": "events", "test": "TestEvents", "checks": {Q: 32, T: 480}, "shards": {Q: 8, T: 16}, "timeout": {Q: 900, T: 3600}, "shrinktime": "30s"},
         ],
     },
